@@ -476,4 +476,38 @@ def r18_sure_loser_strict(ctx):
             _check_surplus_is_total(ctx, R, ri, F)
             ctx.check(found >= 1, R, L, F, '%s compares the batch total plus surplus with the next candidate\'s tally' % name,
                       '%d comparison(s)' % found, 'no comparison of (votes + surplus) with the next tally found in %s' % name, nontrivial=False)
+    # inline batches (no producer): only candidates without any vote, and only when no surplus is pending
+    from .batch import _defeat_loops, _producers_of
+    for ri in rules(ctx):
+        f, cfg = ri.count, ri.cfg
+        for loop in _defeat_loops(ctx, f):
+            if is_selector_call(ctx, f, loop.iter, 'hopeful'):
+                continue
+            it = strip_sorters(ctx, f, loop.iter)
+            prods = _producers_of(ctx, f, it, cfg.of_stmt[loop])
+            if not any(k == 'inline' for k, _ in prods) or ri.short == 'mpls':
+                continue
+            n += 1
+            head = cfg.of_stmt[loop]
+            name = it.id if isinstance(it, ast.Name) else None
+            from .loops import extremum_set
+            sel = extremum_set(ctx, f, name, head) if name else None
+            zero_guard = False
+            for t in cfg.nodes:
+                if t.kind == 'test' and isinstance(t.ast, ast.If):
+                    parts = t.ast.test.values if isinstance(t.ast.test, ast.BoolOp) and isinstance(t.ast.test.op, ast.And) else [t.ast.test]
+                    for p_ in parts:
+                        if isinstance(p_, ast.Compare) and len(p_.ops) == 1 and isinstance(p_.ops[0], ast.Eq) and isinstance(p_.left, ast.Name) \
+                                and ctx.canon(p_.comparators[0], f) == 'E.V0':
+                            if head not in cfg.reach([cfg.entry], edge_ok=lambda a, b, lab, t=t: not (a is t and lab is True), include_start=True):
+                                zero_guard = True
+            no_pending = False
+            for t in cfg.nodes:
+                if t.kind == 'test' and isinstance(t.ast, ast.If) and is_selector_call(ctx, f, t.ast.test, 'pending'):
+                    if head not in cfg.reach([cfg.entry], edge_ok=lambda a, b, lab, t=t: not (a is t and lab is False), include_start=True):
+                        no_pending = True
+            ctx.check(sel == 'hopeful' and zero_guard and no_pending, R, loop, f,
+                      'candidates excluded together without a sure-loser search are exactly the hopefuls with no votes at all, with no surplus pending',
+                      '`%s` is the arg-min set of the hopefuls, the minimum is tested == V0, and the branch is the no-pending branch' % name,
+                      'the inline batch `%s` is not limited to zero-vote hopefuls with no surplus pending: tied lowest candidates with votes are not sure losers' % name)
     ctx.floor(R, 'sure-loser comparisons', n, 4)
